@@ -152,21 +152,27 @@ theorem ef_bsPass_of_P (c : Nat) (h : plainAfterBackslashP c = true) :
   simp at this ⊢
   omega
 
-/-- **One escaped rune is one call of `scanBackslash`** (the backslash consumed), which returns the One
-    node of that rune (nothing, in the pre-scan) and stands right after the escape — for every option set
-    without IgnoreCase. -/
+/-- the node of an escaped rune (`scanBasicBackslash`: "Not backreference: must be char code"): under IgnoreCase
+    the rune is lower-cased first, and `newRegexNodeCh` turns a cased letter into its set -/
+def escNode (o : Opts) (r : Nat) : RNode := nodeCh E .one o (if o.i then E.orc.toLower r else r)
+
+theorem escNode_noI (o : Opts) (r : Nat) (hi : o.i = false) : escNode E o r = .mk .one o r [] none 0 0 [] := by
+  simp [escNode, nodeCh, hi]
+
+/-- **One escaped rune is one call of `scanBackslash`** (the backslash consumed), which returns the node
+    of that rune (nothing, in the pre-scan) and stands right after the escape — for every option set. -/
 theorem ef_scanBackslash_escapeRune (isPrint : Nat → Bool)
     (hW : ∀ c, Generated.metaChars.contains c = true → E.orc.isWord c = false)
     (r : Nat) (body rest : List Nat) (hb : escapeRune isPrint r = 92 :: body)
-    (so : Bool) (s : PS) (hD : E.pat.drop s.pos = body ++ rest) (hi : s.options.i = false) :
+    (so : Bool) (s : PS) (hD : E.pat.drop s.pos = body ++ rest) :
     scanBackslash E so s =
-      .ok (if so then dummy else .mk .one s.options r [] none 0 0 []) { s with pos := s.pos + body.length } := by
+      .ok (if so then dummy else escNode E s.options r) { s with pos := s.pos + body.length } := by
   have key : ∀ (c v : Nat) (tl : List Nat) (s' : PS), E.pat.drop s.pos = c :: tl → bsPass c = true →
       scanCharEscape E s = .ok v s' →
-      scanBackslash E so s = .ok (if so then dummy else .mk .one s.options v [] none 0 0 []) s' := by
+      scanBackslash E so s = .ok (if so then dummy else escNode E s.options v) s' := by
     intro c v tl s' h1 h2 h3
     rw [ef_scanBackslash E so s s' c v tl h1 h2 h3]
-    simp [nodeCh, hi]
+    rfl
   unfold escapeRune at hb
   by_cases hp : isPrint r = true
   · by_cases hm : Generated.metaChars.contains r = true
@@ -183,7 +189,7 @@ theorem ef_scanBackslash_escapeRune (isPrint : Nat → Bool)
     simp only [hp', Bool.false_eq_true, if_false] at hb
     have letter : ∀ (c v : Nat), body = [c] → bsPass c = true →
         (∀ tl, E.pat.drop s.pos = c :: tl → scanCharEscape E s = .ok v { s with pos := s.pos + 1 }) →
-        scanBackslash E so s = .ok (if so then dummy else .mk .one s.options v [] none 0 0 [])
+        scanBackslash E so s = .ok (if so then dummy else escNode E s.options v)
           { s with pos := s.pos + body.length } := by
       intro c v hbody hps hsc
       subst hbody
@@ -325,40 +331,82 @@ theorem ef_stepHead_bslash (s : PS) (tl : List Nat) (hD : E.pat.drop s.pos = 92 
   unfold stepHead
   simp [bind, M.bind, charsRight, hl, pure, M.pure, rightChar, hc, h2, h3, moveRight, modify]
 
-/-- the node `addToConcatenate` makes of a run of at least one ordinary rune (no IgnoreCase) -/
+def addKids (c : RNode) (ks : List RNode) : RNode := ks.foldl RNode.addChild c
+
+theorem addKids_mk (t : NT) (o : Opts) (ch : Nat) (str : List Nat) (set : Option Class.Class) (m n : Int)
+    (kids ks : List RNode) : addKids (.mk t o ch str set m n kids) ks = .mk t o ch str set m n (kids ++ ks) := by
+  induction ks generalizing kids with
+  | nil => simp [addKids]
+  | cons k ks ih =>
+    have := ih (kids ++ [k])
+    simp only [addKids, List.foldl_cons, RNode.addChild] at this ⊢
+    rw [this]; simp
+
+theorem addKids_append (c : RNode) (a b : List RNode) : addKids c (a ++ b) = addKids (addKids c a) b := by
+  simp [addKids, List.foldl_append]
+
+/-- the node `addToConcatenate` makes of a run of at least one ordinary rune without IgnoreCase -/
 def runNode (o : Opts) (p : List Nat) : RNode :=
   if p.length = 1 then .mk .one o (p.headD 0) [] none 0 0 [] else .mk .multi { o with i := false } 0 p none 0 0 []
 
-/-- the concatenation after a (possibly empty) run -/
-def addRun (c : RNode) (o : Opts) (p : List Nat) : RNode := if p = [] then c else c.addChild (runNode o p)
+/-- the children a run contributes without IgnoreCase -/
+def runKids (o : Opts) (p : List Nat) : List RNode := if p = [] then [] else [runNode o p]
 
-theorem ef_addToConcatenate (s : PS) (sp c : Nat) (p tl : List Nat) (hD : E.pat.drop sp = (c :: p) ++ tl)
-    (hi : s.options.i = false) :
+/-- **the children `addToConcatenate` makes of a run of ordinary runes, any options**: nothing for the empty
+    run; `newRegexNodeCh(One)` for a single rune; one Multi (with IgnoreCase cleared) for a longer run unless
+    IgnoreCase is on and some rune takes part in case conversion — then one `newRegexNodeCh(One)` per rune -/
+def runKidsG (o : Opts) (p : List Nat) : List RNode :=
+  if p = [] then []
+  else if p.length = 1 then [nodeCh E .one o (p.headD 0)]
+  else if !o.i || !(p.any E.orc.participates) then [.mk .multi { o with i := false } 0 p none 0 0 []]
+  else p.map (nodeCh E .one o)
+
+theorem runKidsG_noI (o : Opts) (p : List Nat) (hi : o.i = false) : runKidsG E o p = runKids o p := by
+  unfold runKidsG runKids runNode
+  cases p with
+  | nil => simp
+  | cons c p =>
+    cases p with
+    | nil => simp [nodeCh, hi]
+    | cons d p => simp [hi]
+
+theorem ef_addToConcatenate (s : PS) (sp c : Nat) (p tl : List Nat) (hD : E.pat.drop sp = (c :: p) ++ tl) :
     addToConcatenate E sp (c :: p).length s =
-      .ok () { s with concatenation := s.concatenation.addChild (runNode s.options (c :: p)) } := by
+      .ok () { s with concatenation := addKids s.concatenation (runKidsG E s.options (c :: p)) } := by
   obtain ⟨_, hle⟩ := drop_add_of_append hD
   have hnle : ¬ (sp + (p.length + 1) > E.pat.length) := by simp at hle; omega
   have htake : (E.pat.drop sp).take (p.length + 1) = c :: p := by rw [hD]; simp
   unfold addToConcatenate
-  simp only [List.length_cons, Nat.add_one_ne_zero, if_false, hnle, htake, hi]
+  simp only [List.length_cons, Nat.add_one_ne_zero, if_false, hnle, htake]
   cases p with
-  | nil => simp [nodeCh, hi, runNode]
-  | cons d p => simp [runNode]
+  | nil => simp [runKidsG, addKids]
+  | cons d p =>
+    have hne1 : ¬ ((d :: p).length + 1 = 1) := by simp
+    have hne : (c :: d :: p) ≠ [] := by simp
+    have hlen : ¬ ((c :: d :: p).length = 1) := by simp
+    unfold runKidsG
+    simp only [hne1, if_false, hne, hlen]
+    generalize c :: d :: p = q
+    by_cases hcond : (!s.options.i || !(q.any E.orc.participates)) = true
+    · simp only [hcond, if_true]
+      simp [addKids]
+    · simp only [hcond, if_false]
+      simp [addKids, List.foldl_map]
 
-theorem ef_stepLiteral (s : PS) (sp : Nat) (p tl : List Nat) (b : Bool) (hD : E.pat.drop sp = p ++ tl)
-    (hi : s.options.i = false) :
+theorem ef_stepLiteral (s : PS) (sp : Nat) (p tl : List Nat) (b : Bool) (hD : E.pat.drop sp = p ++ tl) :
     stepLiteral E sp (sp + p.length) false b s =
-      .ok (if p = [] then b else false) { s with concatenation := addRun s.concatenation s.options p } := by
+      .ok (if p = [] then b else false)
+        { s with concatenation := addKids s.concatenation (runKidsG E s.options p) } := by
   unfold stepLiteral
   cases p with
-  | nil => simp [pure, M.pure, addRun]
+  | nil => simp [pure, M.pure, runKidsG, addKids]
   | cons c p =>
     have hlt : sp < sp + (c :: p).length := by simp
-    have h := ef_addToConcatenate E s sp c p tl hD hi
+    have h := ef_addToConcatenate E s sp c p tl hD
     have hpos : (c :: p).length > 0 := by simp
     simp only [hlt, if_true, Bool.false_eq_true, if_false, Nat.sub_zero, Nat.add_sub_cancel_left, hpos]
     simp only [List.length_cons] at h
-    simp [bind, M.bind, h, pure, M.pure, addRun]
+    simp [bind, M.bind, h, pure, M.pure]
 
 /-- after a unit that is followed by plain text: no blank, no quantifier, the unit joins the
     concatenation -/
@@ -380,16 +428,16 @@ theorem plainHead_ords (p tl : List Nat) (hord : ∀ c ∈ p, isStopperXCh c = f
 /-- **a turn of `scanRegex` on a run of ordinary runes that ends the pattern**: the run joins the
     concatenation as one One/Multi node, `BreakOuterScan` -/
 theorem ef_scanStep_end (s : PS) (p : List Nat) (b : Bool) (hD : E.pat.drop s.pos = p)
-    (hord : ∀ c ∈ p, isStopperXCh c = false) (hi : s.options.i = false) :
+    (hord : ∀ c ∈ p, isStopperXCh c = false) :
     scanStep E b s = .ok (.inr ())
-      { s with pos := s.pos + p.length, concatenation := addRun s.concatenation s.options p } := by
+      { s with pos := s.pos + p.length, concatenation := addKids s.concatenation (runKidsG E s.options p) } := by
   have hD' : E.pat.drop s.pos = p ++ [] := by simpa using hD
   obtain ⟨hd1, hlen⟩ := drop_add_of_append hD'
   have e1 := ef_scanBlank_id E s (by rw [hD']; exact plainHead_ords p [] hord plainHead_nil)
   have e2 := ef_skipOrdinary E p s [] (E.pat.length - s.pos + 1) hD' hord (Or.inl rfl) (by simp at hlen; omega)
   have e3 := ef_scanBlank_id E { s with pos := s.pos + p.length } (by rw [hd1]; exact plainHead_nil)
   have e4 := ef_stepHead_end E { s with pos := s.pos + p.length } hd1
-  have e5 := ef_stepLiteral E { s with pos := s.pos + p.length } s.pos p [] b hD' hi
+  have e5 := ef_stepLiteral E { s with pos := s.pos + p.length } s.pos p [] b hD'
   unfold scanStep stepRun
   simp [bind, M.bind, textpos, charsRight, opts, pure, M.pure, e1, e2, e3, e4, e5]
 
@@ -399,10 +447,10 @@ theorem ef_scanStep_esc (isPrint : Nat → Bool)
     (hW : ∀ c, Generated.metaChars.contains c = true → E.orc.isWord c = false)
     (s : PS) (p : List Nat) (r : Nat) (body tl : List Nat) (b : Bool)
     (hb : escapeRune isPrint r = 92 :: body) (hD : E.pat.drop s.pos = p ++ (92 :: (body ++ tl)))
-    (hord : ∀ c ∈ p, isStopperXCh c = false) (htl : PlainHead tl) (hi : s.options.i = false) :
+    (hord : ∀ c ∈ p, isStopperXCh c = false) (htl : PlainHead tl) :
     scanStep E b s = .ok (.inl false)
       { s with pos := s.pos + p.length + 1 + body.length,
-               concatenation := (addRun s.concatenation s.options p).addChild (.mk .one s.options r [] none 0 0 []),
+               concatenation := (addKids s.concatenation (runKidsG E s.options p)).addChild (escNode E s.options r),
                unit := none } := by
   obtain ⟨hd1, hlen⟩ := drop_add_of_append hD
   obtain ⟨_, _, hd2⟩ := drop_cons_facts E hd1
@@ -412,12 +460,13 @@ theorem ef_scanStep_esc (isPrint : Nat → Bool)
     (by simp at hlen; omega)
   have e3 := ef_scanBlank_id E { s with pos := s.pos + p.length } (by rw [hd1]; exact plainHead_bslash _)
   have e4 := ef_stepHead_bslash E { s with pos := s.pos + p.length } _ hd1
-  have e5 := ef_stepLiteral E { s with pos := s.pos + p.length + 1 } s.pos p _ b hD hi
+  have e5 := ef_stepLiteral E { s with pos := s.pos + p.length + 1 } s.pos p _ b hD
   have e6 := ef_scanBackslash_escapeRune E isPrint hW r body tl hb false
-    { s with pos := s.pos + p.length + 1, concatenation := addRun s.concatenation s.options p } hd2 hi
+    { s with pos := s.pos + p.length + 1, concatenation := addKids s.concatenation (runKidsG E s.options p) } hd2
   have e7 := ef_stepAfter E
-    { s with pos := s.pos + p.length + 1 + body.length, concatenation := addRun s.concatenation s.options p,
-             unit := some (.mk .one s.options r [] none 0 0 []) } _ rfl (by rw [hd3]; exact htl)
+    { s with pos := s.pos + p.length + 1 + body.length,
+             concatenation := addKids s.concatenation (runKidsG E s.options p),
+             unit := some (escNode E s.options r) } _ rfl (by rw [hd3]; exact htl)
   unfold scanStep stepRun
   simp [bind, M.bind, textpos, charsRight, opts, pure, M.pure, e1, e2, e3, e4, e5]
   unfold stepSwitch
@@ -458,9 +507,6 @@ theorem kidsRunes_append (a b : List RNode) (x y : List Nat) (ha : kidsRunes a =
         subst ha
         simp [ih v h2, List.append_assoc]
 
-/-- the children a run contributes -/
-def runKids (o : Opts) (p : List Nat) : List RNode := if p = [] then [] else [runNode o p]
-
 theorem kidsRunes_runKids (o : Opts) (p : List Nat) : kidsRunes (runKids o p) = some p := by
   unfold runKids
   cases p with
@@ -469,24 +515,6 @@ theorem kidsRunes_runKids (o : Opts) (p : List Nat) : kidsRunes (runKids o p) = 
     cases p with
     | nil => simp [kidsRunes, runNode, leafRunes]
     | cons d p => simp [kidsRunes, runNode, leafRunes]
-
-def addKids (c : RNode) (ks : List RNode) : RNode := ks.foldl RNode.addChild c
-
-theorem addKids_mk (t : NT) (o : Opts) (ch : Nat) (str : List Nat) (set : Option Class.Class) (m n : Int)
-    (kids ks : List RNode) : addKids (.mk t o ch str set m n kids) ks = .mk t o ch str set m n (kids ++ ks) := by
-  induction ks generalizing kids with
-  | nil => simp [addKids]
-  | cons k ks ih =>
-    have := ih (kids ++ [k])
-    simp only [addKids, List.foldl_cons, RNode.addChild] at this ⊢
-    rw [this]; simp
-
-theorem addRun_eq (c : RNode) (o : Opts) (p : List Nat) : addRun c o p = addKids c (runKids o p) := by
-  unfold addRun runKids addKids
-  split <;> simp
-
-theorem addKids_append (c : RNode) (a b : List RNode) : addKids c (a ++ b) = addKids (addKids c a) b := by
-  simp [addKids, List.foldl_append]
 
 /-! ## the shape of `Escape`'s output -/
 
@@ -558,30 +586,55 @@ def mainBody : Bool → M (Sum Bool Unit) := fun isQuant => do
   let cr ← charsRight E
   if cr = 0 then pure (.inr ()) else scanStep E isQuant
 
+/-- **the children of the concatenation the parser builds for `Escape w` under the options `o`** (any options,
+    IgnoreCase included): `w` is cut into maximal runs of runes `escape` writes raw, each contributing
+    `runKidsG` (one One / one Multi / one node per rune), and the escaped runes in between, each contributing
+    `escNode` -/
+inductive EscKids (isPrint : Nat → Bool) (o : Opts) : List Nat → List RNode → Prop
+  | nil : EscKids isPrint o [] []
+  | run (p w : List Nat) (ks : List RNode) (hraw : ∀ c ∈ p, isRaw isPrint c = true)
+      (hmax : w = [] ∨ ∃ r w', w = r :: w' ∧ isRaw isPrint r = false) :
+      EscKids isPrint o w ks → EscKids isPrint o (p ++ w) (runKidsG E o p ++ ks)
+  | esc (r : Nat) (w : List Nat) (ks : List RNode) (hr : isRaw isPrint r = false) :
+      EscKids isPrint o w ks → EscKids isPrint o (r :: w) (escNode E o r :: ks)
+
+/-- without IgnoreCase the children are literal leaves spelling `w` -/
+theorem escKids_runes (isPrint : Nat → Bool) (o : Opts) (hi : o.i = false) (w : List Nat) (ks : List RNode)
+    (h : EscKids E isPrint o w ks) : kidsRunes ks = some w := by
+  induction h with
+  | nil => rfl
+  | run p w ks _ _ _ ih =>
+    rw [runKidsG_noI E o p hi]
+    exact kidsRunes_append _ _ _ _ (kidsRunes_runKids o p) ih
+  | esc r w ks _ _ ih =>
+    rw [escNode_noI E o r hi]
+    have e1 : kidsRunes [RNode.mk .one o r [] none 0 0 []] = some [r] := by simp [kidsRunes, leafRunes]
+    exact kidsRunes_append [_] ks [r] w e1 ih
+
 /-- **the loop of `scanRegex` on `Escape w`**: it ends normally, and the children it has added to the
-    concatenation are literal leaves spelling `w` -/
+    concatenation are the `EscKids` of `w` -/
 theorem ef_loop (isPrint : Nat → Bool)
     (hW : ∀ c, Generated.metaChars.contains c = true → E.orc.isWord c = false)
     (hP : ∀ c, 9 ≤ c → c ≤ 13 → isPrint c = false) :
     ∀ (n : Nat) (w : List Nat), w.length ≤ n → ∀ (s : PS) (fuel : Nat) (b : Bool),
-      E.pat.drop s.pos = escape isPrint w → s.options.i = false → (escape isPrint w).length < fuel →
-      ∃ ks s', iter (mainBody E) fuel b s = .ok () s' ∧ kidsRunes ks = some w ∧
+      E.pat.drop s.pos = escape isPrint w → (escape isPrint w).length < fuel →
+      ∃ ks s', iter (mainBody E) fuel b s = .ok () s' ∧ EscKids E isPrint s.options w ks ∧
         s'.concatenation = addKids s.concatenation ks ∧ s'.stack = s.stack ∧ s'.group = s.group ∧
         s'.alternation = s.alternation ∧ s'.options = s.options := by
   intro n
   induction n with
   | zero =>
-    intro w hw s fuel b hD hi hf
+    intro w hw s fuel b hD hf
     have : w = [] := by cases w <;> simp at hw ⊢
     subst this
     obtain ⟨fuel, rfl⟩ : ∃ m, fuel = m + 1 := ⟨fuel - 1, by omega⟩
     have hl : E.pat.length - s.pos = 0 := by
       have := congrArg List.length hD; simpa [escape] using this
-    refine ⟨[], s, ?_, rfl, rfl, rfl, rfl, rfl, rfl⟩
+    refine ⟨[], s, ?_, .nil, rfl, rfl, rfl, rfl, rfl⟩
     refine iter_inr _ _ _ _ _ _ ?_
     simp [mainBody, bind, M.bind, charsRight, hl, pure, M.pure]
   | succ n ih =>
-    intro w hw s fuel b hD hi hf
+    intro w hw s fuel b hD hf
     obtain ⟨fuel, rfl⟩ : ∃ m, fuel = m + 1 := ⟨fuel - 1, by omega⟩
     obtain ⟨p, t, hw', hraw, ht⟩ := ef_chunk isPrint w
     have hord : ∀ c ∈ p, isStopperXCh c = false := fun c hc => ef_raw_ord isPrint hP c (hraw c hc)
@@ -591,18 +644,22 @@ theorem ef_loop (isPrint : Nat → Bool)
       have e0 : escape isPrint [] = [] := rfl
       simp only [e0, List.append_nil] at hD hf hw'
       subst hw'
+      have hk : EscKids E isPrint s.options w (runKidsG E s.options w) := by
+        have := EscKids.run (E := E) (o := s.options) w [] [] hraw (Or.inl rfl) .nil
+        simpa using this
       by_cases hl : E.pat.length - s.pos = 0
       · have : w = [] := by
           have := congrArg List.length hD; simp [hl] at this; exact List.eq_nil_of_length_eq_zero this.symm
         subst this
-        refine ⟨[], s, ?_, rfl, rfl, rfl, rfl, rfl, rfl⟩
+        refine ⟨[], s, ?_, .nil, rfl, rfl, rfl, rfl, rfl⟩
         refine iter_inr _ _ _ _ _ _ ?_
         simp [mainBody, bind, M.bind, charsRight, hl, pure, M.pure]
-      · refine ⟨runKids s.options w, { s with pos := s.pos + w.length, concatenation := addRun s.concatenation s.options w }, ?_, kidsRunes_runKids _ _, ?_, rfl, rfl, rfl, rfl⟩
-        · refine iter_inr _ _ _ _ _ _ ?_
-          simp only [mainBody, bind, M.bind, charsRight, hl, if_false]
-          exact ef_scanStep_end E s w b hD hord hi
-        · simp [addRun_eq]
+      · refine ⟨runKidsG E s.options w,
+          { s with pos := s.pos + w.length, concatenation := addKids s.concatenation (runKidsG E s.options w) },
+          ?_, hk, rfl, rfl, rfl, rfl, rfl⟩
+        refine iter_inr _ _ _ _ _ _ ?_
+        simp only [mainBody, bind, M.bind, charsRight, hl, if_false]
+        exact ef_scanStep_end E s w b hD hord
     · -- a run, then an escaped rune
       obtain ⟨body, hb⟩ := ef_escapeRune_esc isPrint r hr
       rw [ef_escape_cons, hb] at hD hf
@@ -610,24 +667,22 @@ theorem ef_loop (isPrint : Nat → Bool)
       have hl : E.pat.length - s.pos ≠ 0 := by
         have := congrArg List.length hD; simp at this; omega
       have hstep := ef_scanStep_esc E isPrint hW s p r body (escape isPrint t') b hb hD hord
-        (ef_plainHead_escape isPrint hP t') hi
+        (ef_plainHead_escape isPrint hP t')
       obtain ⟨hd1, _⟩ := drop_add_of_append hD
       obtain ⟨_, _, hd2⟩ := drop_cons_facts E hd1
       obtain ⟨hd3, _⟩ := drop_add_of_append hd2
       have hlen : t'.length ≤ n := by subst hw'; simp at hw; omega
       obtain ⟨ks, s', h1, h2, h3, h4, h5, h6, h7⟩ := ih t' hlen
         { s with pos := s.pos + p.length + 1 + body.length,
-                 concatenation := (addRun s.concatenation s.options p).addChild (.mk .one s.options r [] none 0 0 []),
-                 unit := none } fuel false hd3 hi (by simp at hf; omega)
-      refine ⟨runKids s.options p ++ [.mk .one s.options r [] none 0 0 []] ++ ks, s', ?_, ?_, ?_, h4, h5, h6, h7⟩
+                 concatenation := (addKids s.concatenation (runKidsG E s.options p)).addChild (escNode E s.options r),
+                 unit := none } fuel false hd3 (by simp at hf; omega)
+      refine ⟨runKidsG E s.options p ++ (escNode E s.options r :: ks), s', ?_, ?_, ?_, h4, h5, h6, h7⟩
       · refine (iter_inl _ _ _ false _ _ ?_).trans h1
         simp only [mainBody, bind, M.bind, charsRight, hl, if_false]
         exact hstep
       · rw [hw']
-        have e1 : kidsRunes [RNode.mk .one s.options r [] none 0 0 []] = some [r] := by simp [kidsRunes, leafRunes]
-        have := kidsRunes_append _ _ _ _ (kidsRunes_append _ _ _ _ (kidsRunes_runKids s.options p) e1) h2
-        simpa using this
-      · rw [h3, addKids_append, addKids_append, addRun_eq]
+        exact .run p _ _ hraw (Or.inr ⟨r, t', rfl, hr⟩) (.esc r t' ks hr h2)
+      · rw [h3, addKids_append]
         simp [addKids]
 
 theorem scanRegex_eq (fuel : Nat) : scanRegex E fuel = (do
@@ -659,13 +714,13 @@ theorem ef_scanRegex (isPrint : Nat → Bool)
     (hW : ∀ c, Generated.metaChars.contains c = true → E.orc.isWord c = false)
     (hP : ∀ c, 9 ≤ c → c ≤ 13 → isPrint c = false)
     (w : List Nat) (hpat : E.pat = escape isPrint w) (s : PS) (hpos : s.pos = 0) (hst : s.stack = [])
-    (hi : s.options.i = false) (fuel : Nat) (hf : E.pat.length < fuel) :
-    ∃ ks s', scanRegex E fuel s = .ok (litRoot s.options ks) s' ∧ kidsRunes ks = some w := by
+    (fuel : Nat) (hf : E.pat.length < fuel) :
+    ∃ ks s', scanRegex E fuel s = .ok (litRoot s.options ks) s' ∧ EscKids E isPrint s.options w ks := by
   obtain ⟨ks, s', h1, h2, h3, h4, h5, h6, h7⟩ := ef_loop E isPrint hW hP w.length w (Nat.le_refl _)
     { s with group := mkNodeMN .capture s.options 0 (-1), alternation := mkNode .alternate s.options,
              concatenation := mkNode .concatenate s.options } fuel false
-    (by simp [hpos, hpat]) hi (by rw [← hpat]; exact hf)
-  simp only [] at h3 h4 h5 h6 h7
+    (by simp [hpos, hpat]) (by rw [← hpat]; exact hf)
+  simp only [] at h2 h3 h4 h5 h6 h7
   suffices h : ∃ s'', scanRegex E fuel s = .ok (litRoot s.options ks) s'' by
     obtain ⟨s'', h⟩ := h
     exact ⟨ks, s'', h, h2⟩
@@ -693,10 +748,10 @@ theorem ef_countStep_raw (s : PS) (c : Nat) (tl : List Nat) (hD : E.pat.drop s.p
 theorem ef_countStep_esc (isPrint : Nat → Bool)
     (hW : ∀ c, Generated.metaChars.contains c = true → E.orc.isWord c = false)
     (s : PS) (r : Nat) (body tl : List Nat) (hb : escapeRune isPrint r = 92 :: body)
-    (hD : E.pat.drop s.pos = 92 :: (body ++ tl)) (hi : s.options.i = false) :
+    (hD : E.pat.drop s.pos = 92 :: (body ++ tl)) :
     countStep E s = .ok () { s with pos := s.pos + 1 + body.length } := by
   obtain ⟨hlt, hcc, hr⟩ := drop_cons_facts E hD
-  have e6 := ef_scanBackslash_escapeRune E isPrint hW r body tl hb true { s with pos := s.pos + 1 } hr hi
+  have e6 := ef_scanBackslash_escapeRune E isPrint hW r body tl hb true { s with pos := s.pos + 1 } hr
   unfold countStep
   by_cases hl : E.pat.length - (s.pos + 1) > 0
   · simp [bind, M.bind, moveRightGetChar, rightChar, moveRight, modify, opts, pure, M.pure, hcc, charsRight, hl,
@@ -718,18 +773,18 @@ def countBody : Unit → M (Sum Unit Unit) := fun _ => do
 theorem ef_countLoop (isPrint : Nat → Bool)
     (hW : ∀ c, Generated.metaChars.contains c = true → E.orc.isWord c = false)
     (hP : ∀ c, 9 ≤ c → c ≤ 13 → isPrint c = false) (w : List Nat) :
-    ∀ (s : PS) (fuel : Nat), E.pat.drop s.pos = escape isPrint w → s.options.i = false → w.length < fuel →
+    ∀ (s : PS) (fuel : Nat), E.pat.drop s.pos = escape isPrint w → w.length < fuel →
       ∃ p', iter (countBody E) fuel () s = .ok () { s with pos := p' } := by
   induction w with
   | nil =>
-    intro s fuel hD hi hf
+    intro s fuel hD hf
     obtain ⟨fuel, rfl⟩ : ∃ m, fuel = m + 1 := ⟨fuel - 1, by omega⟩
     have hl : E.pat.length - s.pos = 0 := by
       have := congrArg List.length hD; simpa [escape] using this
     refine ⟨s.pos, iter_inr _ _ _ _ _ _ ?_⟩
     simp [countBody, bind, M.bind, charsRight, hl, pure, M.pure]
   | cons r w ih =>
-    intro s fuel hD hi hf
+    intro s fuel hD hf
     obtain ⟨fuel, rfl⟩ : ∃ m, fuel = m + 1 := ⟨fuel - 1, by omega⟩
     rw [ef_escape_cons] at hD
     by_cases hr : isRaw isPrint r = true
@@ -737,7 +792,7 @@ theorem ef_countLoop (isPrint : Nat → Bool)
       simp only [List.cons_append, List.nil_append] at hD
       obtain ⟨hlt, _, hd1⟩ := drop_cons_facts E hD
       have hl : E.pat.length - s.pos ≠ 0 := by omega
-      obtain ⟨p', h⟩ := ih { s with pos := s.pos + 1 } fuel hd1 hi (by simp at hf; omega)
+      obtain ⟨p', h⟩ := ih { s with pos := s.pos + 1 } fuel hd1 (by simp at hf; omega)
       refine ⟨p', (iter_inl _ _ _ () _ _ ?_).trans h⟩
       simp [countBody, bind, M.bind, charsRight, hl, pure, M.pure,
         ef_countStep_raw E s r _ hD (ef_raw_ord isPrint hP r hr)]
@@ -747,9 +802,9 @@ theorem ef_countLoop (isPrint : Nat → Bool)
       obtain ⟨hlt, _, hd1⟩ := drop_cons_facts E hD
       obtain ⟨hd2, _⟩ := drop_add_of_append hd1
       have hl : E.pat.length - s.pos ≠ 0 := by omega
-      obtain ⟨p', h⟩ := ih { s with pos := s.pos + 1 + body.length } fuel hd2 hi (by simp at hf; omega)
+      obtain ⟨p', h⟩ := ih { s with pos := s.pos + 1 + body.length } fuel hd2 (by simp at hf; omega)
       refine ⟨p', (iter_inl _ _ _ () _ _ ?_).trans h⟩
-      simp [countBody, bind, M.bind, charsRight, hl, pure, M.pure, ef_countStep_esc E isPrint hW s r body _ hb hD hi]
+      simp [countBody, bind, M.bind, charsRight, hl, pure, M.pure, ef_countStep_esc E isPrint hW s r body _ hb hD]
 
 /-- the capture tables of a pattern without groups: slot 0 only, no names -/
 def noGroupTables : Groups.Tables :=
@@ -764,31 +819,40 @@ theorem ef_countCaptures (isPrint : Nat → Bool)
     (hW : ∀ c, Generated.metaChars.contains c = true → E.orc.isWord c = false)
     (hP : ∀ c, 9 ≤ c → c ≤ 13 → isPrint c = false)
     (w : List Nat) (hpat : E.pat = escape isPrint w) (s : PS) (hpos : s.pos = 0)
-    (hi : s.options.i = false) (fuel : Nat) (hf : E.pat.length < fuel) :
+    (fuel : Nat) (hf : E.pat.length < fuel) :
     ∃ s', countCaptures E fuel s = .ok (noGroupTables E) s' := by
   have hlen : w.length < fuel := by
     have := Lemmas.Escape.escape_length isPrint w; rw [← hpat] at this; omega
   obtain ⟨p', h⟩ := ef_countLoop E isPrint hW hP w { s with g := Groups.initState } fuel
-    (by simp [hpos, hpat]) hi hlen
+    (by simp [hpos, hpat]) hlen
   rw [countCaptures_eq]
   simp only [bind, M.bind, modify, h, assignNameSlots, noGroupTables]
   cases E.ord <;> simp [Groups.initState]
 
-/-- **`Parse` on `Escape w`**, any option set without IgnoreCase -/
-theorem ef_parse (isPrint : Nat → Bool)
+/-- **`Parse` on `Escape w`, any option set** (IgnoreCase included): no error, the tables of a pattern without
+    groups, the root Capture 0 over the concatenation of the `EscKids` of `w` -/
+theorem ef_parse_any (isPrint : Nat → Bool)
     (hW : ∀ c, Generated.metaChars.contains c = true → E.orc.isWord c = false)
     (hP : ∀ c, 9 ≤ c → c ≤ 13 → isPrint c = false)
-    (w : List Nat) (hpat : E.pat = escape isPrint w) (hi : E.opts.i = false) :
-    ∃ ks, parse E = .ok { root := litRoot E.opts ks, tables := noGroupTables E } ∧ kidsRunes ks = some w := by
-  obtain ⟨s1, h1⟩ := ef_countCaptures E isPrint hW hP w hpat { options := E.opts } rfl hi
+    (w : List Nat) (hpat : E.pat = escape isPrint w) :
+    ∃ ks, parse E = .ok { root := litRoot E.opts ks, tables := noGroupTables E } ∧ EscKids E isPrint E.opts w ks := by
+  obtain ⟨s1, h1⟩ := ef_countCaptures E isPrint hW hP w hpat { options := E.opts } rfl
     (E.pat.length + 1) (by omega)
-  obtain ⟨ks, s2, h2, h3⟩ := ef_scanRegex E isPrint hW hP w hpat (resetState E (noGroupTables E)) rfl rfl hi
+  obtain ⟨ks, s2, h2, h3⟩ := ef_scanRegex E isPrint hW hP w hpat (resetState E (noGroupTables E)) rfl rfl
     (E.pat.length + 1) (by omega)
   refine ⟨ks, ?_, h3⟩
   unfold parse parseFuel
   simp only [h1, h2]
   rfl
 
+/-- **`Parse` on `Escape w`**, any option set without IgnoreCase: the children are literal leaves spelling `w` -/
+theorem ef_parse (isPrint : Nat → Bool)
+    (hW : ∀ c, Generated.metaChars.contains c = true → E.orc.isWord c = false)
+    (hP : ∀ c, 9 ≤ c → c ≤ 13 → isPrint c = false)
+    (w : List Nat) (hpat : E.pat = escape isPrint w) (hi : E.opts.i = false) :
+    ∃ ks, parse E = .ok { root := litRoot E.opts ks, tables := noGroupTables E } ∧ kidsRunes ks = some w := by
+  obtain ⟨ks, h1, h2⟩ := ef_parse_any E isPrint hW hP w hpat
+  exact ⟨ks, h1, escKids_runes E isPrint E.opts hi w ks h2⟩
 
 theorem noGroupTables_caps : (noGroupTables E).caps = [0] ∧ (noGroupTables E).captop = 1 := by
   unfold noGroupTables Env.ord Env.cfg
